@@ -8,7 +8,12 @@
 (* rules see in one stripped, non-blank line:                              *)
 (*   [k |-> "comment" | "block" | "assign" | "other",                      *)
 (*    name |-> block / variable name, pk |-> "|" in the operator,          *)
-(*    ev |-> "$" in the operator, bs |-> the line ends with a backslash]   *)
+(*    ev |-> "$" in the operator, bs |-> the line ends with a backslash,   *)
+(*    val |-> class of the (whole, continuation-joined) value text of an   *)
+(*            assignment: "lit" a Python literal, "special" one of the      *)
+(*            parser's plain forms ([[REPLACEMENT]], <vector>, UUID-ish,    *)
+(*            inf/nan), "expr" an expression that is not a literal, "junk"  *)
+(*            not an expression at all; "none" for other lines]             *)
 (* Literal syntax inside a value (Python repr / ast.literal_eval) is not   *)
 (* modelled: the number of physical lines of a value is a free parameter   *)
 (* (k) and the value itself is only seen through the datagram bodies.      *)
@@ -18,11 +23,13 @@
 (*   var = [n |-> name, ser |-> a subfield serializer is registered,       *)
 (*          pretty |-> "ok" | "unser" | "raise"  (what the serializer      *)
 (*                     makes of this value), inline |-> ORIG_INLINE,       *)
-(*          k |-> physical lines of the printed value]                     *)
+(*          k |-> physical lines of the printed value,                     *)
+(*          vk / pvk |-> value class of the printed plain / pretty value]   *)
 (***************************************************************************)
 EXTENDS Integers, Sequences, TLC
 
-Tok(k, name, pk, ev, bs) == [k |-> k, name |-> name, pk |-> pk, ev |-> ev, bs |-> bs]
+Tok(k, name, pk, ev, bs) == [k |-> k, name |-> name, pk |-> pk, ev |-> ev, bs |-> bs, val |-> "none"]
+ATok(name, pk, ev, bs, val) == [k |-> "assign", name |-> name, pk |-> pk, ev |-> ev, bs |-> bs, val |-> val]
 CommentTok == Tok("comment", "", FALSE, FALSE, FALSE)
 HeaderTok == Tok("other", "", FALSE, FALSE, FALSE)
 
@@ -33,7 +40,7 @@ RECURSIVE ContLines(_)
 ContLines(n) == IF n = 0 THEN <<>> ELSE <<Tok("other", "", FALSE, FALSE, n > 1)>> \o ContLines(n - 1)
 VarLines(v, beautify) ==
     LET md == Mode(v, beautify) IN
-    <<Tok("assign", v.n, md # "plain", FALSE, v.k > 1)>> \o ContLines(v.k - 1)
+    <<ATok(v.n, md # "plain", FALSE, v.k > 1, IF md = "plain" THEN v.vk ELSE v.pvk)>> \o ContLines(v.k - 1)
     \o (IF md = "packed" THEN <<CommentTok>> ELSE <<>>)        \* "#Var = <orig>" under a packed value
 RECURSIVE InstLines(_, _)
 InstLines(vs, beautify) == IF Len(vs) = 0 THEN <<>> ELSE VarLines(vs[1], beautify) \o InstLines(Tail(vs), beautify)
@@ -73,15 +80,25 @@ Rebuilt(evs, acc) ==
 
 \* --------------------------------------------------------------- the parser
 \* st: [phase |-> "hdr" | "body", cur |-> a block is open, cont |-> inside a continued value,
-\*      status |-> "run" | "rejected" | "crashed", evaluated |-> BOOLEAN, evs |-> events so far]
+\*      status |-> "run" | "rejected" (eval operator in safe mode) | "refused" (value is not a literal) | "crashed",
+\*      evaluated |-> text was run as an expression, evs |-> events so far]
 St0 == [phase |-> "hdr", cur |-> FALSE, cont |-> FALSE, status |-> "run", evaluated |-> FALSE, evs |-> <<>>]
-Branches == {"cont", "comment", "header", "block", "reject", "eval", "assign", "garbage"}
+Branches == {"cont", "comment", "header", "block", "reject", "eval", "assign", "refuse", "fallback", "garbage"}
+\* Values of assignments without the eval operator go through the literal parser only: a value is taken iff
+\* it is a literal, or -- under plain "=" -- one of the parser's special forms.  Everything else is REFUSED
+\* (an exception), in safe mode and otherwise; it is never evaluated and never accepted.
+Acceptable(tok) == tok.val = "lit" \/ (tok.val = "special" /\ ~tok.pk)
+\* Fallback names a parser variant that, for packed values the literal parser rejects, falls back to
+\* evaluating the text (a design the safe-mode law refutes; kept so that TLC shows the law bites).
+CONSTANT Fallback
 Branch(st, tok, safe) ==
     IF st.cont THEN "cont"                       \* lines.pop(0) inside the continuation loop: whatever the line looks like
     ELSE IF tok.k = "comment" THEN "comment"
     ELSE IF st.phase = "hdr" THEN "header"       \* first non-comment line
     ELSE IF tok.k = "block" THEN "block"
-    ELSE IF tok.k = "assign" THEN (IF tok.ev THEN (IF safe THEN "reject" ELSE "eval") ELSE "assign")
+    ELSE IF tok.k = "assign" THEN (IF tok.ev THEN (IF safe THEN "reject" ELSE "eval")
+                                   ELSE IF Acceptable(tok) THEN "assign"
+                                   ELSE IF Fallback /\ tok.pk /\ tok.val = "expr" THEN "fallback" ELSE "refuse")
     ELSE "garbage"
 Apply(st, tok, br) ==
     CASE br = "cont" -> [st EXCEPT !.cont = tok.bs]
@@ -96,6 +113,10 @@ Apply(st, tok, br) ==
                                   !.evs = Append(@, <<"assign", tok.name, tok.pk>>)]
       [] br = "assign" -> [st EXCEPT !.cont = tok.bs, !.status = IF st.cur THEN "run" ELSE "crashed",
                                     !.evs = Append(@, <<"assign", tok.name, tok.pk>>)]
+      \* ast.literal_eval raises: the text is neither taken nor run
+      [] br = "refuse" -> [st EXCEPT !.status = "refused"]
+      [] br = "fallback" -> [st EXCEPT !.evaluated = TRUE, !.cont = tok.bs, !.status = IF st.cur THEN "run" ELSE "crashed",
+                                      !.evs = Append(@, <<"assign", tok.name, tok.pk>>)]
       [] br = "garbage" -> [st EXCEPT !.status = "crashed"]
 RECURSIVE RunAll(_, _, _)
 RunAll(st, toks, safe) == IF Len(toks) = 0 \/ st.status # "run" THEN st
@@ -137,6 +158,8 @@ Finished == Len(rest) = 0 \/ st.status # "run"
 SafeNeverEvaluates == safe => ~st.evaluated
 \* and it refuses exactly when an eval operator is reached outside a continued value
 RejectsOnlyEval == st.status = "rejected" => safe
+\* text is only ever run through the eval operator with safe mode off: never through "=" or "=|"
+OnlyEvalOperatorEvaluates == st.evaluated => (~safe /\ \E i \in 1..Len(toks) : toks[i].k = "assign" /\ toks[i].ev)
 \* the step machine and its closed form agree (the closed form is what trace validation uses)
 StepIsRunAll == Finished => st = Parse(toks, safe)
 \* printed text is read back as it was meant: every variable once, from the right kind of line, comments inert
